@@ -7,7 +7,7 @@ WT=$(mktemp -d /var/tmp/vwt.XXXXXX)
 git -C /repo worktree add -q --detach "$WT" HEAD || exit 3
 # carry over uncommitted changes of /repo's working tree (normally none)
 git -C /repo diff HEAD | git -C "$WT" apply --allow-empty 2>/dev/null
-if ! git -C "$WT" apply "$PATCH"; then echo "PATCH DOES NOT APPLY"; git -C /repo worktree remove --force "$WT"; exit 3; fi
+if ! git -C "$WT" apply "$PATCH" 2>/dev/null && ! git -C "$WT" apply --3way "$PATCH" 2>/dev/null && ! (cd "$WT" && patch -p1 -s -F3 < "$PATCH"); then echo "PATCH DOES NOT APPLY"; git -C /repo worktree remove --force "$WT"; exit 3; fi
 cd /verif && VERIF_REPO="$WT" ./check "$PROP" --no-evidence "$@"
 RC=$?
 echo "try_patch: $PROP exit=$RC  ($PATCH)"
